@@ -214,6 +214,8 @@ static int argeval(int id)
 static bool g_lock_yields = true;
 extern "C" void quill_verif_lock_point(char const* why)
 {
+  // the backend yields at locks only inside fine-grained operations (pollf/go/until/exitf); whole polls run through
+  if (vs::tl_self == &g_backend && !g_backend.fine) return;
   if (vs::tl_self && g_lock_yields) vs::park(why);
 }
 static std::map<void*, long> g_ptr_ids;
